@@ -380,7 +380,9 @@ def run_case(case: Dict[str, Any], ctx) -> None:
                 want = (1 - wd_req) ** k
             exp = d0 * want
             err_ = (p.detach() - exp).abs().max().item() if p.numel() else 0.0
-            scale = exp.abs().max().item() if p.numel() else 1.0
+            # rounding error of the update is relative to the OPERANDS (|p0|), not to the result: with momentum the decay terms can
+            # cancel (wd 0.4, momentum 0.9, 2 steps: expected factor exactly 0)
+            scale = d0.abs().max().item() if p.numel() else 1.0
             if err_ > max(1e-12 if lr_kind != "tensor32" else 5e-6, 0) * k * max(scale, 1e-300) + 0.0:
                 ctx.violation(f"C11:zero-gradient-step-is-not-pure-decay:{opt_name}", f"param {i} after {k} steps: max err {err_:.3e} (expected factor {want!r})",
                               wd=wd_req, lr=float(out[i]["lr"]), lr_kind=lr_kind, tag=getattr(p, "mup_type", None))
